@@ -86,7 +86,7 @@ class Env:
         e.aux = self.aux
         e.tmp_owner = self
         e.extra = self.extra
-        e.aliases = self.aliases
+        e.aliases = set(self.aliases)
         return e
 
 
@@ -184,6 +184,9 @@ class Emitter:
             t = self.tyof(e[1], env)
             if t and t.startswith("(") and e[2].isdigit():
                 return split_top(t[1:-1])[int(e[2])].strip()
+            vf = getattr(self.u, "value_fields", {}).get((t, e[2]))
+            if vf:
+                return vf[1] if isinstance(vf, tuple) else "usize"
             return hint
         if k == "matches":
             return "bool"
@@ -236,6 +239,8 @@ class Emitter:
             if name == "None":
                 return Code("none", hint)
             if self.is_state(e, env):
+                if getattr(self.u, "state_value", None):
+                    return self.u.state_value(self, e, env, hint)
                 raise TErr(f"{self.u.name}: the state object `{name}` is used as a value")
             raise TErr(f"{self.u.name}::{env.fn.name}: unknown name `{name}`")
         if k == "un":
@@ -289,6 +294,9 @@ class Emitter:
             c = self.cexpr(e[1], env)
             vf = getattr(self.u, "value_fields", {}).get((c.ty, e[2]))
             if vf:
+                # field of a struct value: Lean projection (type usize) or (Lean projection, Rust type)
+                if isinstance(vf, tuple):
+                    return Code(f"{paren(c.val)}.{vf[0]}", vf[1], c.pre)
                 return Code(f"{paren(c.val)}.{vf}", "usize", c.pre)
             if e[2].isdigit():
                 ty = None
@@ -731,7 +739,7 @@ class Emitter:
         if k == "return":
             self._last_value_ty = "!"
             return self.creturn(e[1], env)
-        if k in ("break", "continue"):
+        if k in ("break", "continue", "breakv"):
             self._last_value_ty = "!"
             return self.cjump(e, env)
         c = self.cexpr(e, env, hint)
@@ -824,6 +832,17 @@ class Emitter:
     def cjump(self, e, env):
         if not env.loop:
             raise TErr("break/continue outside a loop")
+        if e[0] == "breakv":
+            # `break <value>`: only in a `loop` that is the tail expression of the function, where the value of
+            # the loop is the function's result (`Ctl.ret`)
+            if not env.loop.get("value"):
+                raise TErr(f"{self.u.name}::{env.fn.name}: `break <value>` in a loop that is not the function's tail expression")
+            if e[1] is not None and e[1] != env.loop.get("label"):
+                raise TErr("jump to an outer loop label")
+            v = self.cexpr(e[2], env, self.fn_ret_rust)
+            if v.ty == "!":
+                return v.pre
+            return v.pre + [f"return (Ctl.ret {paren(v.val)})"]
         if len(e) > 1 and e[1] is not None and e[1] != env.loop.get("label"):
             raise TErr("jump to an outer loop label")
         muts = tuple_of([env.vars[m][0] for m in env.loop["muts"]])
@@ -854,8 +873,17 @@ class Emitter:
                 raise TErr("let without initialiser")
             hint = norm_ty(ann) if ann else None
             if pat[0] == "pbind" and self.is_state(init, env):
+                env.vars.pop(pat[1], None)
                 env.aliases.add(pat[1])          # an alias of the state object: no Lean value
                 return []
+            if getattr(self.u, "state_aliases", False) and pat[0] == "pbind" and init[0] == "struct":
+                # `let mut new = Self { .. }` (a struct literal that the unit translates as an assignment of the
+                # state): the name denotes the state object from here on
+                c = self.cexpr(init, env, hint)
+                if c.ty == "&state":
+                    env.vars.pop(pat[1], None)
+                    env.aliases.add(pat[1])
+                    return c.pre
             if init[0] == "lit" and hint is None and getattr(self.u, "int_literal_default", None):
                 hint = self.u.int_literal_default
             if init[0] == "block":
@@ -884,7 +912,7 @@ class Emitter:
             e = st[1]
             if e[0] == "assign":
                 return self.cassign(e, env)
-            if e[0] in ("if", "iflet", "match", "block", "loop", "while", "whilelet", "for", "labeled", "return", "break", "continue"):
+            if e[0] in ("if", "iflet", "match", "block", "loop", "while", "whilelet", "for", "labeled", "return", "break", "continue", "breakv"):
                 return self.cflow(e, env)
             c = self.cexpr(e, env)
             if c.ty in ("()", "!", None) or c.val == "()":
@@ -994,7 +1022,7 @@ class Emitter:
         k = e[0]
         if k == "return":
             return self.creturn(e[1], env)
-        if k in ("break", "continue"):
+        if k in ("break", "continue", "breakv"):
             return self.cjump(e, env)
         if k == "block":
             sub = env.child()
@@ -1048,7 +1076,7 @@ class Emitter:
         return ("".join(" " + b for b in bs), "".join(" " + a for a in as_))
 
     # ------------------------------------------------------------------ loops
-    def cloop(self, e, env, label):
+    def cloop(self, e, env, label, value=False):
         k = e[0]
         body = e[-1]
         owner = env
@@ -1074,7 +1102,7 @@ class Emitter:
         cap_args = "".join(" " + env.vars[c][0] for c in caps)
         gen, gen_arg = self.gb(env.fn)
         sub = env.child()
-        sub.loop = dict(muts=muts, label=label, call=f"{lname_}{gen_arg}{cap_args} fuel")
+        sub.loop = dict(muts=muts, label=label, call=f"{lname_}{gen_arg}{cap_args} fuel", value=value)
         mut_pat = tuple_of([env.vars[m][0] for m in muts])
         lines = [f"let mut {env.vars[m][0]} := {env.vars[m][0]}" for m in muts]
         brk = [f"return (Ctl.brk {mut_pat})"]
@@ -1083,7 +1111,10 @@ class Emitter:
             lines += self.cstmts(body[1], sub)
             if body[2] is not None:
                 lines += self.cstmt(("expr", body[2], True), sub)
-            if not (lines and isinstance(lines[-1], str) and lines[-1].startswith("return ")):
+            last = body[2] if body[2] is not None else (body[1][-1][1] if body[1] and body[1][-1][0] == "expr" else None)
+            if value and last is not None and last[0] == "breakv":
+                pass           # the body ends in `break <value>` (possibly of an error: no `return` line)
+            elif not (lines and isinstance(lines[-1], str) and lines[-1].startswith("return ")):
                 lines += again
         elif k == "while":
             c = self.cexpr(e[1], sub, "bool")
@@ -1115,6 +1146,15 @@ class Emitter:
         if not fuel:
             raise TErr(f"{self.u.name}: no fuel expression configured for loop {owner.nloops} of `{env.fn.name}`")
         r = env.fresh("r")
+        if value:
+            # the loop is the function's tail expression and is left only by `break <value>` / `return`
+            if env.loop:
+                raise TErr("value loop inside a loop")
+            return [f"let {r} ← {lname_}{gen_arg}{cap_args} {paren(fuel)} {mut_pat}",
+                    f"match {r} with",
+                    f"| Ctl.ret v => pure v",
+                    f"| Ctl.fuel => {self.u.panic}",
+                    f"| Ctl.brk _ => {self.u.panic}"]
         out = [f"let {r} ← {lname_}{gen_arg}{cap_args} {paren(fuel)} {mut_pat}",
                f"match {r} with",
                f"| Ctl.ret v => return v" if not env.loop else f"| Ctl.ret v => return (Ctl.ret v)",
@@ -1193,6 +1233,8 @@ class Emitter:
     # ------------------------------------------------------------------ functions
     def fn_end(self, tail, env, ret_rust):
         """Lines that finish a function body whose statements have been emitted."""
+        if tail is not None and tail[0] == "loop" and has_breakv(tail):
+            return self.cloop(tail, env, None, value=True)
         if tail is not None and tail[0] in ("loop", "while", "whilelet", "for", "labeled", "assign"):
             return self.cstmt(("expr", tail, True), env) + ["pure ()"]
         if tail is not None:
@@ -1272,6 +1314,8 @@ class Emitter:
                 continue
             pat, pty = p
             if self.u.is_state_type(pty):
+                if getattr(self.u, "state_aliases", False) and pat[0] == "pbind":
+                    env.aliases.add(pat[1])
                 continue
             if pat[0] != "pbind":
                 raise TErr(f"{fn.name}: parameter pattern")
@@ -1307,6 +1351,18 @@ def has_loop(t):
         return any(has_loop(x) for x in t[1:])
     if isinstance(t, list):
         return any(has_loop(x) for x in t)
+    return False
+
+
+def has_breakv(t):
+    if isinstance(t, tuple):
+        if t and t[0] == "breakv":
+            return True
+        if t and t[0] == "closure":
+            return False
+        return any(has_breakv(x) for x in t[1:])
+    if isinstance(t, list):
+        return any(has_breakv(x) for x in t)
     return False
 
 
